@@ -622,7 +622,7 @@ def defaultFuel : Nat := 6000
 def M.intersectWith (a b : M) : PyM M := mIntersect defaultFuel [] a b
 def M.unionWith (a b : M) : PyM M := mUnion defaultFuel [] a b
 
-/-- `parse_marker(text)` -/
+/-- `parse_marker(text)` without the `RecursionError` guard: grammar, `_compact_markers`, top-level `union(…)` -/
 def parseMarker (text : String) : PyM M :=
   if text == "<empty>" then .ok .empty
   else if text.isEmpty || text == "*" then .ok .any
@@ -630,5 +630,20 @@ def parseMarker (text : String) : PyM M :=
     let syn ← parseText text
     let subs ← compactSubMarkers syn
     unionF defaultFuel [] subs
+
+/-- `parse_marker(text)` as the public function behaves since repo fix 9ad3a46:
+`try: _compact_markers(...) except RecursionError: raise InvalidMarkerError`.  Only the error class differs
+from `parseMarker` (`parseMarkerTop_ok_iff`), so every statement about returned markers transfers. -/
+def parseMarkerTop (text : String) : PyM M :=
+  match parseMarker text with
+  | .error .recursion => .error .value
+  | r => r
+
+theorem parseMarkerTop_ok_iff (text : String) (m : M) :
+    parseMarkerTop text = .ok m ↔ parseMarker text = .ok m := by
+  unfold parseMarkerTop
+  cases h : parseMarker text with
+  | ok r => simp
+  | error e => cases e <;> simp
 
 end Poetry.Marker
